@@ -139,6 +139,24 @@ def opScaledInt : P String := do
     | none => "none"
   pure s!"hyp={showBool (!hasMin)} model={sh (scaledToleranceInt sg bits base a b)} spec={sh spec}"
 
+/-- `scaledcompint <signed> <bits> <base> <k> <a…> <b…>` → ScaledTolerance with `use_component_magnitudes` on integer
+    arrays of shape (n, k): the scalar model `scaledToleranceInt` applied to every column (that IS "per component") -/
+def opScaledCompInt : P String := do
+  let sg ← pBool
+  let bits ← pNat
+  let base ← pNat
+  let k ← pNat
+  let a ← pList pInt
+  let b ← pList pInt
+  if k = 0 then failure
+  let col : List Int → Nat → List Int := fun xs c => (List.range (xs.length / k)).map fun r => xs.getD (r * k + c) 0
+  let hasMin := (a ++ b).any fun v => sg && v == -(2 ^ (bits - 1) : Int)
+  let sh : Option Int → String := fun o => match o with
+    | some u => toString u
+    | none => "none"
+  let outs := (List.range k).map fun c => sh (scaledToleranceInt sg bits base (col a c) (col b c))
+  pure s!"hyp={showBool (!hasMin)} model={",".intercalate outs}"
+
 /-- `rnd <fmt> <a> <s>` → rounded magnitude (tests the rounding model itself) -/
 def opRnd : P String := do
   let f ← tok
@@ -158,6 +176,7 @@ def handleA (op : String) : Option (P String) :=
   | "pred" => some opPred
   | "scaled" => some opScaled
   | "scaledint" => some opScaledInt
+  | "scaledcompint" => some opScaledCompInt
   | "rnd" => some opRnd
   | _ => none
 
